@@ -163,6 +163,26 @@ CASES = [
     ("m-c14-long-sign", "C14", "fire", "xdis/marsh.py", "        sign = 1\n        if size < 0:\n            sign = -1\n            size = -size\n        x = 0\n        for i in range(size):\n            d = _r_short(self)", "        sign = 1\n        size = abs(size)\n        if size < 0:\n            sign = -1\n        x = 0\n        for i in range(size):\n            d = _r_short(self)", "long:sign"),
     ("m-c14-long-weight", "C14", "fire", "xdis/marsh.py", "            d = _r_short(self)\n            x = x | (d << (i * 15))", "            d = _r_short(self)\n            x = x | (d << (i * 16))", "long:accumulation"),
     ("s-c14-long-add", "C14", "silent", "xdis/marsh.py", "            d = _r_short(self)\n            x = x | (d << (i * 15))", "            d = _r_short(self)\n            x += d * (1 << (15 * i))", ""),
+    # ---------------- whole-package reformat, one case per property
+    ("s-c01-reformat", "C01", "silent", "*REFORMAT*", "", "", ""),
+    ("s-c02-reformat", "C02", "silent", "*REFORMAT*", "", "", ""),
+    ("s-c03-reformat", "C03", "silent", "*REFORMAT*", "", "", ""),
+    ("s-c04-reformat", "C04", "silent", "*REFORMAT*", "", "", ""),
+    ("s-c05-reformat", "C05", "silent", "*REFORMAT*", "", "", ""),
+    ("s-c06-reformat", "C06", "silent", "*REFORMAT*", "", "", ""),
+    ("s-c08-reformat", "C08", "silent", "*REFORMAT*", "", "", ""),
+    ("s-c09-reformat", "C09", "silent", "*REFORMAT*", "", "", ""),
+    ("s-c10-reformat", "C10", "silent", "*REFORMAT*", "", "", ""),
+    ("s-c11-reformat", "C11", "silent", "*REFORMAT*", "", "", ""),
+    ("s-c12-reformat", "C12", "silent", "*REFORMAT*", "", "", ""),
+    ("s-c13-reformat", "C13", "silent", "*REFORMAT*", "", "", ""),
+    ("s-c14-reformat", "C14", "silent", "*REFORMAT*", "", "", ""),
+    ("s-c15-reformat", "C15", "silent", "*REFORMAT*", "", "", ""),
+    ("s-c16-reformat", "C16", "silent", "*REFORMAT*", "", "", ""),
+    ("s-c17-reformat", "C17", "silent", "*REFORMAT*", "", "", ""),
+    ("s-c18-reformat", "C18", "silent", "*REFORMAT*", "", "", ""),
+    ("s-c19-reformat", "C19", "silent", "*REFORMAT*", "", "", ""),
+    ("s-c20-reformat", "C20", "silent", "*REFORMAT*", "", "", ""),
 ]
 
 
@@ -177,13 +197,26 @@ def run_case(case):
     cid, pid, kind, rel, old, new, frag = case
     d = copy_tree()
     try:
-        p = os.path.join(d, rel)
-        with open(p, encoding="utf-8") as f:
-            s = f.read()
-        if old not in s:
-            return {"id": cid, "property": pid, "kind": kind, "status": "skipped (anchor text changed)"}
-        with open(p, "w", encoding="utf-8") as f:
-            f.write(s.replace(old, new, 1))
+        if rel == "*REFORMAT*":
+            # whole-package behaviour-preserving rewrite: every file is replaced by ast.unparse of its own tree (all line numbers, comments,
+            # quoting, parenthesisation and line breaks change)
+            import ast
+            for root, _, files in os.walk(os.path.join(d, "xdis")):
+                for fn in files:
+                    if fn.endswith(".py"):
+                        p = os.path.join(root, fn)
+                        with open(p, encoding="utf-8") as f:
+                            src = f.read()
+                        with open(p, "w", encoding="utf-8") as f:
+                            f.write(ast.unparse(ast.parse(src)) + "\n")
+        else:
+            p = os.path.join(d, rel)
+            with open(p, encoding="utf-8") as f:
+                s = f.read()
+            if old not in s:
+                return {"id": cid, "property": pid, "kind": kind, "status": "skipped (anchor text changed)"}
+            with open(p, "w", encoding="utf-8") as f:
+                f.write(s.replace(old, new, 1))
         env = dict(os.environ, XV_REPO=d, XV_SERIAL="1", XV_NO_EVIDENCE="1", PYTHONDONTWRITEBYTECODE="1", PYTHONPATH=HERE)
         t0 = time.time()
         r = subprocess.run([sys.executable, "-m", "xv.main", pid], cwd=HERE, env=env, capture_output=True, text=True)
